@@ -60,6 +60,9 @@ def access_generate(run):
     edge = run.generate('AccessGen', cfgtext=access_cfg(["e1"], ["l1"], sl['finish'], sl['lens'], sl['ops'], sl['noise'],
                         tail='INIT GInit\nNEXT GNext\nINVARIANT EmitEdge\nVIEW EdgeView'), timeout=900)
     edge = dedupe_prefixes(edge)
+    nedge = len(edge)
+    if not thorough:
+        edge = sample(edge, 2000, run.seed)
     # word mode: every word up to N over the slice
     n = 3 if (thorough or run.prop == 'C03') else 2
     evil = ["e1", "e2"] if thorough else ["e1"]
@@ -87,7 +90,7 @@ def access_generate(run):
     for g, a in attacks:
         groups.append(('attack:' + g, [a]))
     groups.append(('sim', sim))
-    stats = dict(edge_words=len(edge), words_enumerated=nwords_all, words_replayed=len(words), word_len=n,
+    stats = dict(edge_words=len(edge), edge_words_enumerated=nedge, words_enumerated=nwords_all, words_replayed=len(words), word_len=n,
                  attack_words=len(attacks), sim_words=len(sim), sim_depth=depth)
     return groups, stats
 
